@@ -19,8 +19,8 @@ open ServerWill
 
 /-- C16 server clause, exactly-once / exactly-when: in every reachable state the number of
     `PublishWill` events task `t` has sent is 1 if its will wait was ended by `Fire` or by the
-    expiry of the delay with the handler map intact, and 0 in every other case (not established,
-    still running or waiting, cancelled, expired against a poisoned map) — never 2. -/
+    expiry of the delay, and 0 in every other case (not established,
+    still running or waiting, cancelled) — never 2. -/
 theorem will_event_emitted_exactly_when (ops : List Op) (t : Nat) :
     (World.run {} ops).publishedWill t =
       match ((World.run {} ops).task? t).bind (·.resolution) with
@@ -94,50 +94,44 @@ theorem timeout_exactly_at_deadline (w : World) (t : Nat) (x : Task) (d ms : Nat
   simp only
   exact expire_at { w with now := w.now + ms } w.tasks.length t x d ht h hw hres
 
-/-- full-strength liveness of the server part: every will wait that is over was ended by a signal or
-    a genuine timeout, and a task panics only where the code it runs inside its link panics (an input
-    of this model). FALSE on the as-is code: see
-    `stale_handler_poisons_listener`. -/
-def EveryEndedLinkResolvesProperly : Prop :=
-  ∀ (ops : List Op) (t : Nat) (x : Task), (World.run {} ops).task? t = some x →
-    x.resolution ≠ some .poisonedAtExpiry ∧ (x.phase = .panicked → Op.taskPanic t ∈ ops)
+/-- liveness of the server part at full strength: in every reachable state a task has panicked only
+    where the code it runs inside its link panicked (`taskPanic`, an input of this model) — the
+    will bookkeeping itself never panics, whatever was refused, ended or panicked before —, so every
+    will wait is ended by a signal or a genuine timeout (`Resolution` has no other case) -/
+theorem every_ended_link_resolves_properly (ops : List Op) (t : Nat) (x : Task)
+    (h : (World.run {} ops).task? t = some x) :
+    x.phase = .panicked → Op.taskPanic t ∈ ops := by
+  intro hp
+  rcases run_panicked {} ops t x h hp with h1 | ⟨x0, hx0, _⟩
+  · exact h1
+  · simp at hx0
 
-/-- witness (replayed on the real broker by `vh stack`, cases `stale*` / `poison*`): a CONNECT the
-    router refuses (client id `a/b`; or any id at the connection limit) leaves its will handler
-    behind with a dropped receiver; the next CONNECT with that client id panics in
-    `try_send(..).unwrap()` while holding the map's mutex guard, which poisons the mutex: every
-    later connection of the listener panics, and a connected client's will event is never sent -/
-theorem stale_handler_poisons_listener :
+/-- a connection the router refuses (client id with `+ $ # /`, connection limit) leaves no will
+    handler behind -/
+theorem refused_link_leaves_no_handler (w : World) (cid : String) (clean : Bool) (delay : Nat) :
+    Router.alookup cid (w.step (.admitted cid clean delay false)).handlers = none := by
+  rw [step_admitted, wake_handlers,
+    linkStep_false_handlers _ _ _ (handlerStep_task w cid clean delay) rfl]
+  exact Router.alookup_aremove_same _ _
+
+/-- a handler whose receiver is gone (its task panicked inside its link) does not stop the next
+    connection with that client id: the handler step always yields a running task and registers it -/
+theorem stale_handler_is_harmless (w : World) (cid : String) (clean : Bool) (delay : Nat) :
+    ((w.handlerStep cid clean delay).1.task? (w.handlerStep cid clean delay).2).map (·.phase) = some .running ∧
+    Router.alookup cid (w.handlerStep cid clean delay).1.handlers = some (w.handlerStep cid clean delay).2 := by
+  rw [handlerStep_task]
+  exact ⟨rfl, handlerStep_handlers w cid clean delay⟩
+
+/-- regression example (the history that used to kill the listener: `vh stack` cases `stale*` /
+    `poison*`): a refused CONNECT, the same client id again, another client, then the connected
+    client goes away — everybody is served and the will event is sent -/
+example :
     let w := World.run {}
-      [.admitted "w" true 0 true,        -- task 0: a client with an established link
-       .admitted "a/b" true 0 false,     -- task 1: refused by the router, handler left behind
-       .admitted "a/b" true 0 true,      -- task 2: panics, mutex poisoned
-       .admitted "c" true 0 true,        -- task 3: any later connection panics
-       .ended 0 .peerClosed]             -- the connected client goes away: no will event
-    w.poisoned = true ∧
-    (w.task? 2).map (·.phase) = some .panicked ∧ (w.task? 3).map (·.phase) = some .panicked ∧
-    (w.task? 0).bind (·.resolution) = some .poisonedAtExpiry ∧ w.publishedWill 0 = 0 := by
+      [.admitted "w" true 0 true, .admitted "a/b" true 0 false, .admitted "a/b" true 0 true,
+       .admitted "c" true 0 true, .ended 0 .peerClosed]
+    (w.task? 2).map (·.phase) = some .running ∧ (w.task? 3).map (·.phase) = some .running ∧
+    (w.task? 0).bind (·.resolution) = some .timedOut ∧ w.publishedWill 0 = 1 := by
   decide
-
-theorem every_ended_link_resolves_properly_fails : ¬ EveryEndedLinkResolvesProperly := by
-  intro h
-  have := (h [.admitted "w" true 0 true, .admitted "a/b" true 0 false, .admitted "a/b" true 0 true,
-              .admitted "c" true 0 true, .ended 0 .peerClosed] 0 _ rfl).1
-  exact absurd rfl this
-
-/-- the same clause with exactly the excluded trigger as hypothesis: no admission is refused by the
-    router (`linkOk = false`) and no task panics inside its link. Then the handler map never names
-    a dead receiver, the mutex is never poisoned, and every wait is resolved by a signal or a
-    genuine timeout. -/
-theorem every_ended_link_resolves_properly_partial (ops : List Op)
-    (hok : ∀ op ∈ ops, match op with
-      | .admitted _ _ _ linkOk => linkOk = true
-      | .taskPanic _ => False
-      | _ => True)
-    (t : Nat) (x : Task) (h : (World.run {} ops).task? t = some x) :
-    (World.run {} ops).poisoned = false ∧ x.resolution ≠ some .poisonedAtExpiry ∧ x.phase ≠ .panicked := by
-  have hp := InvP.init.run ops hok
-  exact ⟨hp.np, (hp.task t x h).2, (hp.task t x h).1⟩
 
 /- non-vacuity: a will delay of 5 s, cancelled by a session-resuming reconnect after 1 s … -/
 example :
